@@ -108,7 +108,14 @@ impl Runnable for Cfg {
             Algo::GaussianProjection => {
                 let rng = Xoshiro256Plus::seed_from_u64(self.rng_seed);
                 let params = GaussianRandomProjection::<f64>::params_with_rng(rng);
-                let params = if self.flag { params.target_dim(k) } else { params.eps(0.9) };
+                // eps mode: the Johnson-Lindenstrauss dimension for <= 60 rows and eps 0.9 is about 100, so the data
+                // must be wide for the fit to be accepted
+                let (x, q, params) = if self.flag {
+                    (x, q, params.target_dim(k))
+                } else {
+                    let n = self.n.min(60);
+                    (data::gaussian(self.data_seed, n, 128), data::gaussian(self.data_seed ^ 0x71, 10, 128), params.eps(0.9))
+                };
                 match params.fit(&DatasetBase::from(x)) {
                     Ok(m) => {
                         out.arr("gaussian_projection:transform", &m.transform(&q));
